@@ -33,6 +33,10 @@ type ServerCfg struct {
 	DefaultAuth string            `json:"defauth,omitempty"` // outcome when no entry matches: accept|reject|fail (default reject)
 	Params      map[string]string `json:"params,omitempty"`
 	HasParams   bool              `json:"hasparams,omitempty"` // configure GlobalParameters even when empty
+	// Params2: a second GlobalParameters option follows the first one. It repeats
+	// every pair of Params and adds more, so that what is announced does not
+	// depend on whether a later option replaces or extends an earlier one.
+	Params2 map[string]string `json:"params2,omitempty"`
 	Version     string            `json:"version,omitempty"`
 	TLS         string            `json:"tls,omitempty"` // "" | empty | certs
 	// AuthFirst: an earlier SessionAuthStrategy option ("accept-all": a strategy
@@ -52,6 +56,10 @@ type ServerCfg struct {
 	// "field" = the exported Server.TLSConfig field assigned after NewServer,
 	// "late-cert" = the option with a config whose certificate is added afterwards
 	TLSVia string `json:"tls_via,omitempty"`
+	// TLSCertValidity: "" | "expired" | "future": the configured certificate is
+	// outside its validity period at the time the TLS stack believes it is
+	// (nobody verifies it: a configured certificate is a configured certificate)
+	TLSCertValidity string `json:"tls_cert_validity,omitempty"`
 	// TLSClientAuth: "" | "request" (tls.RequestClientCert) | "require-any"
 	// (tls.RequireAnyClientCert): client certificates are asked for but never verified
 	TLSClientAuth string   `json:"tls_client_auth,omitempty"`
